@@ -162,6 +162,10 @@ func TensorFromProto(tp *TensorProto) (tensor.Tensor, error) {
 		err    error
 	)
 
+	if tp == nil {
+		return nil, ErrInvalidType
+	}
+
 	typeMap := TensorProto_DataType_value
 
 	switch tp.DataType {
